@@ -39,6 +39,8 @@ pub struct PipeState {
     pub reader_dropped: bool,
     r_waker: Option<Waker>,
     w_waker: Option<Waker>,
+    pub blocked_hits: u64,  // writes that returned Pending because of w_block_at
+    pub werr_hits: u64,     // writes that failed because of w_fault_at
     pub trace_writes: bool, // emit twrite/tflush/tshutdown events into the global log
 }
 
@@ -72,6 +74,8 @@ pub fn pipe(name: &'static str) -> (PipeWriter, PipeReader, PipeCtl) {
         reader_dropped: false,
         r_waker: None,
         w_waker: None,
+        blocked_hits: 0,
+        werr_hits: 0,
         trace_writes: false,
     }));
     (PipeWriter(st.clone()), PipeReader(st.clone()), PipeCtl(st))
@@ -126,6 +130,7 @@ impl AsyncWrite for PipeWriter {
         let mut n = data.len();
         if let Some((at, kind)) = g.w_fault_at {
             if g.written >= at {
+                g.werr_hits += 1;
                 g.wlog.push(WEv::WriteErr);
                 if g.trace_writes { crate::events::log().ev(serde_json::json!({"ev":"twriteerr","pipe":g.name})); }
                 return Poll::Ready(Err(io::Error::new(kind, "injected write fault")));
@@ -133,7 +138,7 @@ impl AsyncWrite for PipeWriter {
             n = n.min((at - g.written) as usize);
         }
         if let Some(at) = g.w_block_at {
-            if g.written >= at { g.w_waker = Some(cx.waker().clone()); return Poll::Pending; }
+            if g.written >= at { g.blocked_hits += 1; g.w_waker = Some(cx.waker().clone()); return Poll::Pending; }
             n = n.min((at - g.written) as usize);
         }
         let room = g.cap.saturating_sub(g.used());
